@@ -13,24 +13,30 @@ def hist_conds(mode, L, timeout, extra_env=None, by_name=False, nn=3, nd=3):
         n1 = nn + 1 if nn == 3 else nn
         names = [(n, n + 1) for n in range(n1)] if by_name else [(0, n1)]
         for lo, hi in names:
-            env = {"C12_MODE": mode, "C12_OP0LO": op, "C12_OP0HI": op + 1, "C12_N0LO": lo, "C12_N0HI": hi,
-                   "C12_NN": nn, "C12_ND": nd}
-            env.update(extra_env or {})
-            tag = "".join("-%s%s" % (k[-3:].lower(), v) for k, v in (extra_env or {}).items())
-            out.append(Cond("%s-hist%d-p%d%d-%s-n%d%s" % (mode, L, nn, nd, H.OPS[op], lo, tag), F, "hist%d" % L, env=env, timeout=timeout))
+            n2 = (nn + (2 if mode == "c12" else 1)) if nn == 3 else nn
+            msplit = [(m, m + 1) for m in range(n2)] if (by_name and nn == 3 and H.OPS[op] in ("update", "replace")) else [(0, 99)]
+            for mlo, mhi in msplit:
+                env = {"C12_MODE": mode, "C12_OP0LO": op, "C12_OP0HI": op + 1, "C12_N0LO": lo, "C12_N0HI": hi,
+                       "C12_NN": nn, "C12_ND": nd, "C12_M0LO": mlo, "C12_M0HI": mhi}
+                env.update(extra_env or {})
+                tag = "".join("-%s%s" % (k[-3:].lower(), v) for k, v in (extra_env or {}).items())
+                out.append(Cond("%s-hist%d-p%d%d-%s-n%d-m%d%s" % (mode, L, nn, nd, H.OPS[op], lo, mlo, tag), F, "hist%d" % L,
+                                env=env, timeout=timeout))
     return out
 
 
 def plan(tier, seed):
     q = tier == "quick"
     if q:
-        conds = hist_conds("c12", 2, 240, by_name=True)
-        conds += hist_conds("c12", 3, 280, by_name=True, nn=2, nd=1)
-        b = ("all histories of length 2 over 3 names x 3 definitions; all histories of length 3 over 2 names x 1 definition")
+        conds = hist_conds("c12", 2, 240, by_name=True, nd=2)
+        conds += [c for c in hist_conds("c12", 3, 280, by_name=True, nn=2, nd=1) if "-add-" in c.name]
+        b = ("all histories of length 2 over 3 names (+ a bytes alias; new names also a bytes name and the empty string) x 2 "
+             "definitions; all histories of length 3 over 2 names that start with addfilter (every edit changes the content)")
     else:
         conds = hist_conds("c12", 3, 3000, by_name=True)
         conds += hist_conds("c12", 4, 3000, by_name=True, nn=2, nd=1)
-        b = ("all histories of length 3 over 3 names x 3 definitions; all histories of length 4 over 2 names x 1 definition")
+        b = ("all histories of length 3 over 3 names (+ bytes alias, empty new name) x 3 definitions; all histories of length 4 "
+             "over 2 names x 1 definition")
     conds.append(Cond("c12-vacuity", F, "hist2", env={"C12_MODE": "c12"}, timeout=90, vacuity=True))
     meta = dict(functions=FUNCS,
                 bounds={"histories": b, "pool": "7 editing operations (getfilter / is_filter_disabled are probed for every filter after every step) x names "
